@@ -123,6 +123,16 @@ func c01exprStr(e ast.Expr) string {
 		return c01exprStr(x.X) + x.Op.String() + c01exprStr(x.Y)
 	case *ast.IndexExpr:
 		return c01exprStr(x.X) + "[" + c01exprStr(x.Index) + "]"
+	case *ast.CompositeLit:
+		if x.Type != nil {
+			fs := []string{}
+			for _, el := range x.Elts {
+				if kv, ok := el.(*ast.KeyValueExpr); ok {
+					fs = append(fs, c01exprStr(kv.Key))
+				}
+			}
+			return c01exprStr(x.Type) + "{" + strings.Join(fs, ",") + "}"
+		}
 	}
 	return fmt.Sprintf("<%T>", e)
 }
@@ -1439,10 +1449,11 @@ var c01skelCalls = map[string]bool{"emit": true, "emitThrow": true, "emitGetter"
 	"emitNamedOrConst": true, "emitNamed": true, "emitVarRef": true, "emitInitP": true, "compileStatement": true,
 	"compileStatementDummy": true, "compileIfBody": true, "compileIfBodyDummy": true, "compileStatements": true,
 	"compileStatementsNeedResult": true, "enterDummyMode": true, "compileVarBinding": true, "compileForHeadLexDecl": true,
-	"compileFunction": true, "throwSyntaxError": true, "leave": true}
+	"compileFunction": true, "throwSyntaxError": true, "leave": true, "compileBlockStatement": true}
 
 // decision variables whose assignments belong to the skeleton
-var c01skelVars = map[string]bool{"lastProducingIdx": true, "needResult": true, "breakingBlock": true, "testTrue": true, "testConst": true}
+var c01skelVars = map[string]bool{"lastProducingIdx": true, "needResult": true, "breakingBlock": true, "testTrue": true, "testConst": true,
+	"bodyNeedResult": true}
 
 func c01skelCallsIn(n ast.Node) string {
 	out := ""
@@ -1475,7 +1486,7 @@ func c01outsideFragment(cond string) bool {
 	if cond == "ok" || strings.HasPrefix(cond, "ok&&") {
 		return true // result of a type assertion on *ast.FunctionDeclaration / *ast.BranchStatement
 	}
-	for _, m := range []string{"enterIterBlock", "funcDerivedCtor", "funcClsInit", "leave==nil", "bs!=nil", "blk!=nil", "!c.scope.strict", "b!=nil"} {
+	for _, m := range []string{"enterIterBlock", "funcDerivedCtor", "funcClsInit", "leave==nil", "bs!=nil", "blk!=nil", "!c.scope.strict"} {
 		if strings.Contains(cond, m) {
 			return true
 		}
@@ -1488,6 +1499,13 @@ func c01skel(list []ast.Stmt) string {
 	for _, st := range list {
 		switch x := st.(type) {
 		case *ast.IfStmt:
+			if c01exprStr(x.Cond) == "v.Catch.Parameter!=nil" {
+				// the catch parameter (a block scope) is outside the model; the parameter-less form is the else branch
+				if x.Else != nil {
+					out += "else(" + c01exprStr(x.Cond) + "){" + c01skel([]ast.Stmt{x.Else}) + "}"
+				}
+				continue
+			}
 			if c01outsideFragment(c01exprStr(x.Cond)) {
 				continue
 			}
@@ -1534,7 +1552,11 @@ func c01skel(list []ast.Stmt) string {
 					for _, e := range cc.List {
 						ls = append(ls, c01exprStr(e))
 					}
-					inner += "case(" + strings.Join(ls, ",") + "){" + b + "}"
+					j := strings.Join(ls, ",")
+					if strings.Contains(j, "blockIterScope") || strings.Contains(j, "blockScope") || strings.Contains(j, "blockWith") || strings.Contains(j, "blockLoopEnum") {
+						continue // exit code of block kinds outside the model
+					}
+					inner += "case(" + j + "){" + b + "}"
 				}
 			}
 			if inner != "" {
@@ -1581,7 +1603,8 @@ func genC01Stmt(p *Pkg) (string, error) {
 	b.WriteString("-- GENERATED by extract/c01.go from compiler_stmt.go — do not edit\nnamespace GojaModel.C01.Gen\n\n")
 	names := []string{"compileExpressionStatement", "compileEmptyStatement", "compileIfStatement", "compileIfBody",
 		"compileLabeledWhileStatement", "compileLabeledDoWhileStatement", "compileLabeledForStatement", "compileReturnStatement",
-		"compileThrowStatement", "emitVarAssign", "compileStatements", "compileStatementsNeedResult", "scanStatements"}
+		"compileThrowStatement", "emitVarAssign", "compileStatements", "compileStatementsNeedResult", "scanStatements",
+		"compileTryStatement", "emitBlockExitCode", "compileBreak", "compileContinue", "leaveBlock"}
 	for _, n := range names {
 		fd := p.FuncDecl("compiler", n)
 		if fd == nil {
